@@ -275,6 +275,10 @@ def run_script(build, unwrap=None, ser_top=None):
                 _tighten(edge)
             for kv in ms._matched_kvp_edits:
                 _tighten(kv)
+        # D36's signature on the implementation object: a matcher whose node-keyed dictionaries collapsed repeated nodes
+        collapsed = any(ms._matcher._match is not None and
+                        len(ms._matcher._match) < min(len(ms._matcher.from_nodes), len(ms._matcher.to_nodes))
+                        for ms in created)
         pa, pb = paths_of(unwrap(a)), paths_of(unwrap(b))
         matchings = []
         for ms in created:
@@ -312,7 +316,7 @@ def run_script(build, unwrap=None, ser_top=None):
     d = a3.diff(b3)
     edited = d.edited_cost()
     return {'a': ser_tree(unwrap(a)), 'b': ser_tree(unwrap(b)), 'script': script, 'matchings': matchings, 'orders': orders,
-            'flat_total': flat, 'edited_cost': int(edited)}
+            'flat_total': flat, 'edited_cost': int(edited), 'collapsed': bool(collapsed)}
 
 
 # ------------------------------------------------------------------ Gallina terms
